@@ -587,15 +587,19 @@ def chain_in_scope(case) -> bool:
     return True
 
 
-def oracle_chain(case, obs) -> list[tuple[str, str]]:
-    """Composition is exact: the chain returns the solution of the whole system."""
+def oracle_chain(case, obs, exact: bool | None = None) -> list[tuple[str, str]]:
+    """Composition is exact: the chain returns the solution of the whole system.
+
+    `exact` (default: the system has no cycle): compare exactly, else up to ROUND_BOUND (an iterative inner MDA
+    is involved)."""
     mode = case["mode"]
     if "exc" in obs:
         return [(f"{mode}-raises", f"executing the {mode} chain raised {obs.get('exc_text')}")]
     ref = monolithic(case)
     if ref is None:
         return []
-    exact = not has_cycle(case["discs"])
+    if exact is None:
+        exact = not has_cycle(case["discs"])
     bad = []
     for y, want in ref.items():
         got = obs["val"].get(y)
@@ -746,8 +750,9 @@ def gen_graph(rng: common.Rng, max_n: int = 9) -> dict[str, Any]:
     return {"discs": discs, "style": style}
 
 
-def gen_system(rng: common.Rng, max_n: int = 6) -> dict[str, Any]:
-    """A well-posed affine system (each output computed once); cyclic ones are contractive (row sums <= 1/2)."""
+def gen_system(rng: common.Rng, max_n: int = 6, contractive: bool = False) -> dict[str, Any]:
+    """A well-posed affine system (each output computed once); cyclic ones are contractive (row sums <= 1/2);
+    `contractive` forces small coupling coefficients in acyclic systems too."""
     n = rng.randint(1, max_n)
     acyclic = rng.chance(0.5)
     order = list(range(n))
@@ -775,7 +780,7 @@ def gen_system(rng: common.Rng, max_n: int = 6) -> dict[str, Any]:
             co = {}
             coupl = [v for v in ins if not v.startswith("x")]
             for v in ins:
-                if v.startswith("x") or acyclic:
+                if v.startswith("x") or (acyclic and not contractive):
                     co[v] = rat(Fraction(rng.randint(-4, 4), 2))
                 else:
                     # contraction: |coef| <= 1/(2*#couplings), dyadic
@@ -1202,7 +1207,10 @@ def nested_fails(case, key=None):
         n = len(case["discs"])
         if not all(i < n for i in g) or not any(set(c) == set(g) for c in tarjan(n, edges_of(case["discs"]))):
             return []  # (after shrinking) the wrapped disciplines are no longer a whole group
-    bad = oracle_chain(case, impl_observe_nested(case))
+    # wrapping disciplines into one process can create a cycle between processes that the disciplines do not
+    # have (the sub-chain needs an output of a later discipline that needs one of its outputs): an inner MDA
+    # then iterates, so the nested stream is always compared on the rounded stream
+    bad = oracle_chain(case, impl_observe_nested(case), exact=False)
     return [b for b in bad if key is None or b[0] == key]
 
 
@@ -1331,7 +1339,7 @@ def run(ctx) -> Result:
     # process disciplines nested in the MDAChain (oracle only)
     nested = []
     for _ in range(600 if ctx.thorough else 40):
-        nested.append(gen_nested(rng, gen_system(rng, 6)))
+        nested.append(gen_nested(rng, gen_system(rng, 6, contractive=True)))
     check_nested_cases(res, nested, procs)
     return res
 
@@ -1348,7 +1356,7 @@ def replay(path: str) -> int:
         obs = impl_observe_nested(case)
         print("impl: ", obs["line"], obs.get("exc_text", ""))
         print("whole system at once:", {k: str(v) for k, v in (monolithic(case) or {}).items()})
-        bad = oracle_chain(case, obs)
+        bad = oracle_chain(case, obs, exact=False)
     elif stream == "graph":
         try:
             obs = impl_observe_graph(case)
